@@ -176,4 +176,12 @@ def runCase (line : String) : String :=
   | ["con", forms, a, b] => Cmp.runPair [.contains] forms a b
   | ["tru", form, a] => Cmp.runTruthy form a
   | "expr" :: e :: vals => Cmp.runExpr e vals
+  -- whole-engine streams (harness/stream_robust.go, stream_determ.go, stream_immut.go); the render
+  -- model is not connected yet, so the comparison skips these lines (counted as unmodelled):
+  --   robust <cfg> <srchex> <envenc>                       (C01)
+  --   determ <cfg> <srchex> <envenc>                       (C02)
+  --   immut  <cfg> <nT> <srchex>.. <nE> <envenc>.. <op>..  (C03)
+  | "robust" :: _ => "unmodelled robust"
+  | "determ" :: _ => "unmodelled determ"
+  | "immut" :: _ => "unmodelled immut"
   | _ => "bad-op"
